@@ -5,6 +5,7 @@ import (
 	"fmt"
 	"io"
 	"log"
+	"net/url"
 	"strings"
 	"time"
 	"unsafe"
@@ -28,7 +29,7 @@ func init() {
 	register(&Prop{
 		ID:  "C06",
 		Run: runC06,
-		Rule: "one case = (core stack drawn from nop / Lock(sink) / BufferedWriteSyncer of several sizes / level threshold above Fatal / drop-everything sampler / tee of those, development flag, panic and fatal hook settings from {unset, nil, WriteThenNoop, custom, Goexit}, a terminal call through one of 30 front-end methods at DPanic/Panic/Fatal, 0-2 other tasks logging concurrently) under one seeded schedule, the terminal action being the crash instant at which sinks are judged under the power-loss model; one run in ten is instead a real child process (default actions, real files, exit status observed from outside); " +
+		Rule: "one case = (core stack drawn from nop / Lock(sink) / BufferedWriteSyncer of several sizes / level threshold above Fatal / drop-everything sampler / tee of those / a logger built by Config.Build (development mode from the configuration, optional default sampling) over a registered sink, development flag, panic and fatal hook settings from {unset, nil, WriteThenNoop, custom, Goexit}, a terminal call through one of 30 front-end methods at DPanic/Panic/Fatal, 0-2 other tasks logging concurrently) under one seeded schedule, the terminal action being the crash instant at which sinks are judged under the power-loss model; one run in ten is instead a real child process (default actions, real files, exit status observed from outside); " +
 			"non-trivial = the entry was enabled somewhere or another task logged concurrently or a real child was run; distinct = distinct hash of (configuration, front end, scheduling decisions)",
 		Real: []string{"zap.Logger.check / terminalHookOverride, SugaredLogger, std-log bridge, zapgrpc.Logger", "zapcore.CheckedEntry.Write, CheckWriteAction.OnWrite, ioCore.Write (sync above Error), BufferedWriteSyncer, sampler, tee, nop core", "in the child-process member: os.Exit / panic for real, *os.File sinks"},
 		Stub: []string{"sinks (zsim.SimSink, synced-length tracking)", "process exit in the simulated member (zap's own exit stub, reached through an overlay-added export)", "clock"},
@@ -64,6 +65,7 @@ type c06world struct {
 	blank       bool // blank message through the std-log bridge: only the action is judged
 	termLevel   zapcore.Level
 	judged      bool
+	preLevels   []zapcore.Level // levels of the terminating task's earlier lines
 }
 
 type c06custom struct {
@@ -136,9 +138,17 @@ func runC06(c *Ctx) {
 		w.leaves = append(w.leaves, lf)
 		return zapcore.NewCore(zapcore.NewJSONEncoder(encCfg()), ws, lf.level)
 	}
-	shape := g.Weighted(1, 4, 3, 2)
+	shape := g.Weighted(1, 4, 3, 2, 2)
 	var core zapcore.Core
+	var cfgLeaf *c06leaf
 	switch shape {
+	case 4:
+		// a logger built by Config.Build over a registered sink; development
+		// mode then comes from the configuration, not from an option
+		cfgLeaf = &c06leaf{sink: zsim.NewSimSink(r, "disk0", 1+g.Draw(2), uint64(g.Draw(1<<16))+1)}
+		r.Label(unsafe.Pointer(cfgLeaf.sink), cfgLeaf.sink.Name)
+		cfgLeaf.level = []zapcore.Level{zapcore.DebugLevel, zapcore.InfoLevel, zapcore.ErrorLevel, zapcore.DPanicLevel, zapcore.PanicLevel, zapcore.FatalLevel, zapcore.FatalLevel + 1}[g.Weighted(3, 3, 2, 1, 1, 1, 2)]
+		w.leaves = append(w.leaves, cfgLeaf)
 	case 0:
 		core = zapcore.NewNopCore()
 	case 1:
@@ -157,7 +167,7 @@ func runC06(c *Ctx) {
 	panicHook := c06hookKind(g.Draw(4))
 	fatalHook := c06hookKind(g.Draw(5))
 	var opts []zap.Option
-	if development {
+	if development && shape != 4 {
 		opts = append(opts, zap.Development())
 	}
 	switch panicHook {
@@ -198,7 +208,27 @@ func runC06(c *Ctx) {
 		opts = append(opts, zap.AddCallerSkip(skip))
 	}
 	opts = append(opts, zap.ErrorOutput(zapcore.AddSync(io.Discard)))
-	lg := zap.New(core, opts...)
+	var lg *zap.Logger
+	if shape == 4 {
+		table := map[string]func(u *url.URL) (zap.Sink, error){"disk0": func(*url.URL) (zap.Sink, error) { return cfgLeaf.sink, nil }}
+		useSimScheme(table)
+		cfg := zap.NewProductionConfig()
+		if g.Chance(2) {
+			cfg.Sampling = nil
+		}
+		cfg.EncoderConfig = encCfg()
+		cfg.DisableCaller, cfg.DisableStacktrace = true, true
+		cfg.Development = development
+		cfg.Level = zap.NewAtomicLevelAt(cfgLeaf.level)
+		cfg.OutputPaths, cfg.ErrorOutputPaths = []string{"zsim://disk0/x"}, nil
+		built, err := cfg.Build(opts...)
+		if err != nil {
+			panic(fmt.Sprintf("C06 harness: Config.Build failed: %v", err))
+		}
+		lg = built
+	} else {
+		lg = zap.New(core, opts...)
+	}
 	if g.Chance(3) {
 		lg = lg.With(zap.String("ctx", "v")).Named("svc")
 	}
@@ -216,6 +246,9 @@ func runC06(c *Ctx) {
 	}
 	nOthers := g.Weighted(3, 2, 1)
 	preLines := g.Draw(3)
+	for i := 0; i < preLines; i++ {
+		w.preLevels = append(w.preLevels, pick(g, zapcore.WarnLevel, zapcore.WarnLevel, zapcore.ErrorLevel, zapcore.DPanicLevel, zapcore.PanicLevel, zapcore.FatalLevel))
+	}
 	c.Describe("annot=%d callerSkip=%d", annot, skip)
 	c.Describe("shape=%d leaves=%s dev=%v panicHook=%s fatalHook=%s front=%s level=%s others=%d pre=%d policy=%s", shape, c06leaves(w), development, c06hookNames[panicHook], c06hookNames[fatalHook], c6frontNames[front], lvl, nOthers, preLines, r.Policy)
 	c.MixState(uint64(shape)<<24 | uint64(panicHook)<<20 | uint64(fatalHook)<<16 | uint64(front)<<8 | uint64(lvl))
@@ -241,9 +274,18 @@ func runC06(c *Ctx) {
 				w.judgeSinks("default panic")
 			}
 		}()
-		// earlier lines of the same task
-		for i := 0; i < preLines; i++ {
-			lg.Warn(fmt.Sprintf("pre-%d", i))
+		// earlier lines of the same task: ordinary ones, and entries above Error
+		// that did not end the task (a sibling logger over the same cores whose
+		// panic and fatal hooks just return) - the terminal entry that follows
+		// them must be synced all the same
+		quiet := lg.WithOptions(zap.WithPanicHook(c06quiet{}), zap.WithFatalHook(c06quiet{}))
+		for i, pl := range w.preLevels {
+			msg := fmt.Sprintf("pre-%d", i)
+			if pl == zapcore.WarnLevel {
+				lg.Warn(msg)
+			} else {
+				quiet.Log(pl, msg)
+			}
 			zsim.Yield(zsim.KOp, nil)
 		}
 		c06call(lg, front, lvl, w.termMsg)
@@ -417,17 +459,15 @@ func (w *c06world) judgeOne(lf *c06leaf, synced []byte, when string) {
 	}
 	// all earlier lines of the same task precede it
 	idx := bytes.Index(synced, needle)
-	for i := 0; ; i++ {
-		pre := []byte(fmt.Sprintf(`"msg":"pre-%d"`, i))
-		if !bytes.Contains(lf.sink.Data, pre) && zapcore.WarnLevel < lf.level {
-			break
+	for i, pl := range w.preLevels {
+		if w.dropAll || pl < lf.level {
+			continue
 		}
+		pre := []byte(fmt.Sprintf(`"msg":"pre-%d"`, i))
 		p := bytes.Index(synced, pre)
 		if p < 0 {
-			if zapcore.WarnLevel >= lf.level && i < 3 && bytes.Contains(lf.sink.Data, pre) {
-				c.Fail("C06: an earlier line of the terminating goroutine is not in the synced part before the terminal entry", "%s: sink %s: pre-%d", when, lf.sink.Name, i)
-			}
-			break
+			c.Fail("C06: an earlier line of the terminating goroutine is not in the synced part before the terminal entry", "%s: sink %s: pre-%d (level %s)", when, lf.sink.Name, i, pl)
+			return
 		}
 		if p > idx {
 			c.Fail("C06: an earlier line of the terminating goroutine follows the terminal entry", "%s: sink %s: pre-%d", when, lf.sink.Name, i)
@@ -435,6 +475,12 @@ func (w *c06world) judgeOne(lf *c06leaf, synced []byte, when string) {
 		}
 	}
 }
+
+// c06quiet: a panic/fatal hook that just returns, so that an entry above Error
+// can be followed by more calls of the same task.
+type c06quiet struct{}
+
+func (c06quiet) OnWrite(*zapcore.CheckedEntry, []zapcore.Field) {}
 
 func c06call(lg *zap.Logger, front int, lvl zapcore.Level, msg string) {
 	s := lg.Sugar()
